@@ -25,12 +25,15 @@ META = {
     "ready": True,
     "category": "proof",
     "technique": "Lean 4 invariant proof over the step-level transition system of the stop-the-world handshake (any number of threads, all interleavings) + tables regenerated from vm.rs / jit.rs / transducers.rs + generated multi-threaded programs on the real engine under a progress-counter watchdog, JIT on and off",
-    "level_text": "Theorems (lean/SteelVerif/C16/Props.lean, over the transition system of C15/Model.lean: every access to a pause flag, state, published pointer, park token, the threads mutex and the heap mutex is one atomic step): no_deadlock_code - for the current protocol (heap-lock guard kept during with_locked_env; tied to the sources by the regenerated gate_keeps_guard) and for every number of threads and every schedule respecting the guard (no spawn / host interrupt during a round, no stop request to a thread that is leaving a safepoint), in every reachable state some thread can take a runtime step that changes the state, or every thread is finished, free to run script code, or inside a primitive; round_rank_decreases - every productive step of a stopper lowers a rank bounded by 9*len+13; join_once; channel_fifo_per_sender (join handles and channels modelled by their specifications). For the protocol before /repo d9e2a72a: dual_stopper_deadlock (a 20-line schedule reaches a deadlocked state) and no_deadlock_partial under 'one stop request at a time'. blocking_paths_publish: every call of a plain built-in outside the listed functions is wrapped in enter_safepoint; the full statement is false (not_blocking_paths_publish: transducer/stream callbacks, apply, JIT tail calls - finding K16b). NOT a theorem: liveness under a real OS scheduler (no fairness is assumed or proved - the theorems say a step exists, not that it is taken), and that the Rust code follows the model - that is the program-level run: generated programs must finish with the generator's value while the watchdog sees stop requests complete and instructions being dispatched.",
+    "level_text": "Theorems (lean/SteelVerif/C16/Props.lean, over the transition system of C15/Model.lean: every access to a pause flag, state, published pointer, park token, the threads mutex and the heap mutex is one atomic step): no_deadlock_code - for the current protocol (heap-lock guard kept during with_locked_env; tied to the sources by the regenerated gate_keeps_guard) and for every number of threads and every schedule respecting the guard (no spawn / host interrupt during a round, no stop request to a thread that is leaving a safepoint), in every reachable state some thread can take a runtime step that changes the state, or every thread is finished, free to run script code, or inside a primitive; round_rank_decreases - every productive step of a stopper lowers a rank bounded by 9*len+13; stop_round_terminates - along every spawn-free schedule (every interleaving with other threads' steps) a stopper changes its pc at most that many times before its round is over; join_once, join_exactly_once (a join after the exit: exactly one call receives the value); channel_fifo_per_sender (join handles and channels modelled by their specifications). For the protocol before /repo d9e2a72a: dual_stopper_deadlock (a 20-line schedule reaches a deadlocked state) and no_deadlock_partial under 'one stop request at a time'. blocking_paths_publish: every call of a plain built-in outside the listed functions is wrapped in enter_safepoint; the full statement is false (not_blocking_paths_publish: transducer/stream callbacks, apply, JIT tail calls - finding K16b). NOT a theorem: liveness under a real OS scheduler (no fairness is assumed or proved - the theorems say a step exists, not that it is taken), and that the Rust code follows the model - that is the program-level run: generated programs must finish with the generator's value while the watchdog sees stop requests complete and instructions being dispatched.",
     "level_note": "Trusted: Lean kernel (axioms propext, Classical.choice, Quot.sound), harness c16, the python generator and comparison, the regex translator. Modelled, not verified: sequentially consistent atomics (the code uses Relaxed), parking_lot / std mutexes, std::thread::park tokens, crossbeam channels and JoinHandle by their specifications; host interrupts are excluded from the progress theorems (C17). The thread list order in the model is spawn order (code: registration order). OS scheduling fairness, wall-clock time and Relaxed visibility delays are outside the model.",
 }
 
 BIN = "c16"
-ABORT_K15A = re.compile(r"index out of bounds: the len is 0|free identifier")
+# symptoms of a thread that looked a global up in the empty table another thread's with_locked_env installed (C15 K15a):
+# before /repo 4b9c5de8 native code indexed the empty vector (panic), since then the unchecked lookup of the JIT helpers
+# yields void (reported as an application of a non-procedure) and the interpreter reports a free identifier
+ABORT_K15A = re.compile(r"index out of bounds: the len is 0|free identifier|Cannot reference an identifier before its definition|Function application not a procedure or function type not supported: #<void>")
 ABORT_ALLOC = re.compile(r"closed\.rs:\d+:\d+:\s*\n?called `Option::unwrap\(\)` on a `None` value")
 
 
